@@ -550,6 +550,8 @@ func (s *vStore) UpdateData(data *SwapStateMachine) error {
 	if s.w.fault("store.err") {
 		return errors.New("store failed")
 	}
+	// the real store marshals the complete record: it reads every field of the swap data
+	zzverif.RaceTouch(data.Data, false)
 	s.recs[data.SwapId.String()] = vSnapshot(data)
 	s.w.persists++
 	zzverif.Effect("persist", string(data.Current))
